@@ -57,7 +57,7 @@ def J(x):
     return {"k": "opaque"}
 
 
-FLOATS = [0.0, 1.0, -1.0, 1.5, 0.15, 0.996, 1.0 - 1e-12, 1.0 + 1e-12, 1.0 + 9e-10, 1.0 + 1.8e-9, 2.0,
+FLOATS = [0.0, 1.0, -1.0, 1.5, 1.54, 1.46, 1.23, 1.25, 1.21, 0.15, 0.996, 1.0 - 1e-12, 1.0 + 1e-12, 1.0 + 9e-10, 1.0 + 1.8e-9, 2.0,
           1234567.891, 1234567.892, 20000000.25, 20000000.26, 1e9 + 0.5, 1e9 + 1.5, 1e307, 1e308,
           -1e308, sys.float_info.max, math.inf, -math.inf, math.nan]
 INTS = [0, 1, -1, 2, 5, 2 ** 63, -2 ** 63 - 1, True, False]
@@ -72,7 +72,7 @@ def schemas_for(cls: str):
     def props(**kw):
         return {k: J(v) for k, v in kw.items() if v is not nil}
     if cls == "FloatSchema":
-        base = [0.0, 1.0, 1.5, 1234567.891, 20000000.25, 1e9 + 0.5, 1e307, math.inf, math.nan]
+        base = [0.0, 1.0, 1.5, 1.23, 1234567.891, 20000000.25, 1e9 + 0.5, 1e307, math.inf, math.nan]
         for v, mn, mx, p in itertools.product([nil] + base, [nil, 0.0, 1.0, math.nan], [nil, 1.0, 2.0, math.nan],
                                               [nil, 1, 2, 3]):
             yield props(value=v, min=mn, max=mx, precision=p)
@@ -126,7 +126,7 @@ ARGS = {
 
 def pattern_zoo():
     """patterns from the supported grammar (bounded composition) with the listed unsupported constructs embedded"""
-    atoms = ["a", ".", r"\d", r"\w", "[a-c]", "[^a-c]", r"[^\d]", r"[^\w]", r"[\d_x]", r"[^\dx-z]", r"\.", r"\n", "[.]", "[^.]",
+    atoms = ["a", ".", r"\d", r"\w", "[a-c]", "[^a-c]", r"[^\d]", r"[^\w]", r"[\d_x]", r"[^\dx-z]", r"[^a-f\d]", r"[^.\-\w]", r"[^x\dq-s\w]", r"\.", r"\n", "[.]", "[^.]",
              r"[\n]", "[^\n]", "é", "[^é]", "[ -~]", r"[a\-c]", r"\\", "[]a]", "[^]a]", "_", " "]
     unsup = [r"\s", r"\S", r"\D", r"\W", "(?=a)", "(?!a)", "(?<=a)", r"(a)\1", "(?>a)", "a*+", "a++", r"[\s]", r"[^\S]", r"[\D]",
              r"[\W]", "(?P<n>a)(?P=n)"]
@@ -194,6 +194,39 @@ def search(spec):
             return None
         return (inputs, m, detail) if rep else None
 
+    if oracle == "C03" and not q.startswith("Validator.visit_") or (oracle == "C03" and q.split("visit_")[-1] in ("list", "dict", "any", "type_alias")) \
+            or (oracle == "C03" and "_validate_elements" in q):
+        nested = [("schema.dict({'p': schema.list([schema.int(1), schema.int(2)])})", "{'p': [1, 3]}"),
+                  ("schema.list(schema.list([schema.int, schema.str]))", "[[1, 'a'], [2, 3]]"),
+                  ("schema.dict({'p': schema.list([..., schema.int(2)])})", "{'p': [5, 3]}"),
+                  ("schema.dict({'p': schema.list([schema.int(1), ...])})", "{'p': [2, 3]}"),
+                  ("schema.list([schema.dict({'a': schema.list([..., schema.int(7), ...])})])", "[{'a': [1, 2]}]"),
+                  ("schema.dict({'u': schema.dict({'age': schema.int.min(0), 'n': schema.str.len(1, ...)})})", "{'u': {'age': -5, 'n': ''}}"),
+                  ("schema.list(schema.dict({'a': schema.int}))", "[{'a': 1}, {'a': 'x'}, {}]"),
+                  ("schema.dict({'x': schema.any(schema.int, schema.list(schema.int))})", "{'x': ['a']}"),
+                  ("schema.dict({'al': schema.alias('n', schema.int.min(0))})", "{'al': -1}"),
+                  ("schema.list(schema.alias('n', schema.str.len(2)))", "['ab', 'c']"),
+                  ("schema.dict({'a': schema.int, ...: ...}) + schema.dict({'b': schema.list([schema.int])})", "{'a': 1, 'b': ['x']}")]
+        for es, ev_ in nested:
+            hit = run({"schema": {"k": "expr", "src": es}, "value": {"k": "expr", "src": ev_}, "path": {"k": "nil"}}, meta)
+            if hit:
+                return hit, n
+        return None, n
+    if oracle == "C02" and (not q.startswith("Validator.visit_") or q.split("visit_")[-1] in ("list", "dict", "any", "type_alias")):
+        cases = []
+        dsch = ["schema.dict({'id': schema.int, ...: ..., 'name': schema.str})", "schema.dict({'id': schema.int, ...: ...}) + schema.dict({'name': schema.str})",
+                "schema.dict({...: ..., optional('name'): schema.str})", "schema.dict({'a': schema.int, optional('b'): schema.str})", "schema.dict({'a': schema.int})",
+                "schema.dict", "schema.dict({})"]
+        dval = ["{'id': 1, 'name': 42}", "{'id': 1}", "{'name': None}", "{'id': 1, 'name': 'x'}", "{'a': 1}", "{'a': 1, 'b': 2}", "{}", "{'a': 'x'}", "{'zz': 1}", "[]"]
+        lsch = ["schema.list.len(..., 0)", "schema.list.len(0, 0)", "schema.list(schema.int).len(..., 0)", "schema.list.len(0)", "schema.list(schema.int).len(1, 2)",
+                "schema.list([schema.int, ...])", "schema.list([..., schema.int])", "schema.list([..., schema.int, ...])", "schema.list([schema.int, schema.str])",
+                "schema.list([])", "schema.list", "schema.any(schema.int, schema.list(schema.str))", "schema.alias('n', schema.list(schema.int).len(1))"]
+        lval = ["[]", "[1]", "[1, 2]", "[1, 'x']", "['x']", "['x', 1]", "[1, 2, 3]", "1", "'x'", "['a', 'b']"]
+        for es, ev_ in list(itertools.product(dsch, dval)) + list(itertools.product(lsch, lval)):
+            hit = run({"schema": {"k": "expr", "src": es}, "value": {"k": "expr", "src": ev_}, "path": {"k": "nil"}}, meta)
+            if hit:
+                return hit, n
+        return None, n
     if oracle in ("C02", "C03", "C08") and q.startswith("Validator.visit_"):
         cls = {"none": "NoneSchema", "bool": "BoolSchema", "int": "IntSchema", "float": "FloatSchema",
                "str": "StrSchema", "bytes": "BytesSchema", "uuid4": "UUID4Schema", "datetime": "DateTimeSchema",
@@ -224,6 +257,27 @@ def search(spec):
             n += 1
             inputs = {"schema": {"k": "expr", "src": e}}
             hit = run(inputs, meta)
+            if hit:
+                return hit, n
+        return None, n
+    if oracle == "C13":
+        dicts = ["schema.dict", "schema.dict({})", "schema.dict({'a': schema.int})", "schema.dict({'a': schema.int, 'b': schema.str})",
+                 "schema.dict({optional('a'): schema.int, 'c': schema.none})", "schema.dict({'a': schema.str, ...: ...})",
+                 "schema.dict({optional('b'): schema.str, ...: ...})", "schema.dict({...: ...})",
+                 "schema.dict({'a': schema.int, optional('b'): schema.str})", "schema.dict({'id': schema.int, 'name': schema.str})"]
+        for ea, eb in itertools.product(dicts, repeat=2):
+            hit = run({"self": {"k": "expr", "src": ea}, "other": {"k": "expr", "src": eb}}, {"kind": "add"})
+            if hit:
+                return hit, n
+        for ea in dicts:
+            for ks in ("None", "['a']", "{'a', 'b'}", "['b']", "[]", "['zz']", "('a',)"):
+                hit = run({"schema": {"k": "expr", "src": ea}, "keys": {"k": "expr", "src": ks}}, {})
+                if hit:
+                    return hit, n
+        others = ["schema.int", "schema.str", "schema.none", "schema.any(schema.int, schema.str)", "schema.list(schema.int)",
+                  "schema.dict({'a': schema.int})", "schema.any", "schema.int(1) | schema.int(2)"]
+        for ea, eb in itertools.product(others, repeat=2):
+            hit = run({"self": {"k": "expr", "src": ea}, "other": {"k": "expr", "src": eb}}, {"kind": "union"})
             if hit:
                 return hit, n
         return None, n
